@@ -567,9 +567,16 @@ impl<'a> G<'a> {
                 }
             }
             K::Range => {
-                let a = self.s.below(4) as i64 - 1;
-                let b = self.s.below(6) as i64 - 1;
+                let mut a = self.s.below(4) as i64 - 1;
+                let mut b = self.s.below(6) as i64 - 1;
                 let inc = self.s.chance(30);
+                if self.s.chance(12) {
+                    // bounds around and beyond 32 bits (koto stores such ranges differently)
+                    self.feat("range-wide-bounds");
+                    let base = *self.s.pick(&[2147483646i64, 3000000000, -2147483650]);
+                    a = base + self.s.below(3) as i64;
+                    b = a + self.s.below(4) as i64 - 1;
+                }
                 let wrap = |g: &mut Self, n: i64| -> E {
                     if n < 0 {
                         E::Paren(bx(E::Int(n)))
